@@ -176,38 +176,45 @@ Qed.
 
 Record lsp_inv (fs : fsys) (imps : path -> list import) (entry : path)
        (seen acc : list path) (stack : list litem) : Prop := {
-  li_acc : acc = seen;
+  li_acc : forall p, In p seen <-> p = entry \/ In p acc;   (* `seen` = the entry + what was loaded *)
+  li_noentry : ~ In entry acc;
   li_base : forall it, In it stack -> snd it = pdir (fst it);
-  li_reach_p : forall p, In p seen -> reach1 (ledge fs imps) entry p;
+  li_reach_p : forall p, In p acc -> reach1 (ledge fs imps) entry p;
   li_reach_s : forall it, In it stack -> reach1 (ledge fs imps) entry (fst it);
-  li_closed : forall p q, In p seen -> ledge fs imps p q -> In q seen \/ In q (map fst stack);
-  li_roots : forall q, ledge fs imps entry q -> In q seen \/ In q (map fst stack) }.
+  li_closed : forall p q, In p seen -> ledge fs imps p q -> In q seen \/ In q (map fst stack) }.
+
+Lemma lsp_done_reach : forall fs imps entry seen acc stack,
+  lsp_inv fs imps entry seen acc stack ->
+  ldrop_done seen stack = [] ->
+  forall q, In q (rev acc) <-> reach1 (ledge fs imps) entry q /\ q <> entry.
+Proof.
+  intros fs imps entry seen acc stack [Ha Hn Hb Hp Hs Hc] DD q. rewrite <- in_rev.
+  assert (forall x, In x (map fst stack) -> In x seen) as SP.
+  { intros x Hx. apply in_map_iff in Hx. destruct Hx as [it [<- Hit]]. exact (ldrop_done_nil _ _ DD it Hit). }
+  split.
+  - intro Hq. split; [apply Hp; exact Hq|]. intro E. subst q. exact (Hn Hq).
+  - intros [[p0 [H0 R]] Hne].
+    assert (In q seen) as Hq.
+    { apply (reach_closed (ledge fs imps) (fun x => In x seen) p0); [| |exact R].
+      + assert (In entry seen) as He by (apply Ha; left; reflexivity).
+        destruct (Hc entry p0 He H0) as [Hx|Hx]; [exact Hx | apply SP; exact Hx].
+      + intros p x Hpp Hpx. destruct (Hc p x Hpp Hpx) as [Hx|Hx]; [exact Hx | apply SP; exact Hx]. }
+    apply Ha in Hq. destruct Hq as [Hq|Hq]; [contradiction | exact Hq].
+Qed.
 
 Lemma lsp_loop_reach : forall fs imps entry fuel seen acc stack res,
   lsp_inv fs imps entry seen acc stack ->
   lsp_loop fuel fs imps seen acc stack = Done res ->
-  forall q, In q res <-> reach1 (ledge fs imps) entry q.
+  forall q, In q res <-> reach1 (ledge fs imps) entry q /\ q <> entry.
 Proof.
   intros fs imps entry. induction fuel as [|f IH]; intros seen acc stack res I H q.
   - cbn [lsp_loop] in H. destruct (ldrop_done seen stack) as [|it rest] eqn:DD; [|discriminate].
-    inversion H; subst res. clear H. destruct I as [Ha Hb Hp Hs Hc Hr]. rewrite <- in_rev, Ha.
-    assert (forall x, In x (map fst stack) -> In x seen) as SP.
-    { intros x Hx. apply in_map_iff in Hx. destruct Hx as [it [<- Hit]]. exact (ldrop_done_nil _ _ DD it Hit). }
-    split; [apply Hp|]. intros [p0 [H0 R]].
-    apply (reach_closed (ledge fs imps) (fun x => In x seen) p0); [| |exact R].
-    + destruct (Hr p0 H0) as [Hx|Hx]; [exact Hx | apply SP; exact Hx].
-    + intros p x Hpp Hpx. destruct (Hc p x Hpp Hpx) as [Hx|Hx]; [exact Hx | apply SP; exact Hx].
+    inversion H; subst res. exact (lsp_done_reach _ _ _ _ _ _ I DD q).
   - cbn [lsp_loop] in H. destruct (ldrop_done seen stack) as [|it rest] eqn:DD.
-    + inversion H; subst res. clear H. destruct I as [Ha Hb Hp Hs Hc Hr]. rewrite <- in_rev, Ha.
-      assert (forall x, In x (map fst stack) -> In x seen) as SP.
-      { intros x Hx. apply in_map_iff in Hx. destruct Hx as [it [<- Hit]]. exact (ldrop_done_nil _ _ DD it Hit). }
-      split; [apply Hp|]. intros [p0 [H0 R]].
-      apply (reach_closed (ledge fs imps) (fun x => In x seen) p0); [| |exact R].
-      * destruct (Hr p0 H0) as [Hx|Hx]; [exact Hx | apply SP; exact Hx].
-      * intros p x Hpp Hpx. destruct (Hc p x Hpp Hpx) as [Hx|Hx]; [exact Hx | apply SP; exact Hx].
+    + inversion H; subst res. exact (lsp_done_reach _ _ _ _ _ _ I DD q).
     + apply (IH _ _ _ _) with (q := q) in H; [exact H|]. clear H IH.
       destruct (ldrop_done_spec _ _ _ _ DD) as [Hm [Hin Hrest]].
-      destruct I as [Ha Hb Hp Hs Hc Hr].
+      destruct I as [Ha Hn Hb Hp Hs Hc].
       assert (forall x, In x stack -> In (fst x) seen \/ x = it \/ In x rest) as SPLIT.
       { intros x Hx. destruct (ldrop_done_split seen stack x Hx) as [H1|H1]; [left; exact H1|].
         rewrite DD in H1. right. destruct H1 as [H1|H1]; [left; symmetry; exact H1 | right; exact H1]. }
@@ -215,8 +222,13 @@ Proof.
       { intros x Hx. apply in_map_iff in Hx. destruct Hx as [y [<- Hy]].
         destruct (SPLIT y Hy) as [H2|[->|H2]]; [left; right; exact H2 | left; left; reflexivity |].
         right. rewrite map_app, in_app_iff. right. apply in_map. exact H2. }
+      assert (fst it <> entry) as NE.
+      { intro E. apply (mem_false_not_In _ _ Hm). rewrite E. apply Ha. left. reflexivity. }
       constructor.
-      * rewrite Ha. reflexivity.
+      * intro p. cbn [In]. rewrite Ha. split.
+        -- intros [H1|[H1|H1]]; [right; left; exact H1 | left; exact H1 | right; right; exact H1].
+        -- intros [H1|[H1|H1]]; [right; left; exact H1 | left; exact H1 | right; right; exact H1].
+      * intros [H1|H1]; [exact (NE H1) | exact (Hn H1)].
       * intros x Hx. apply in_app_or in Hx. destruct Hx as [Hx|Hx].
         -- apply in_rev in Hx. exact (lpushes_base _ _ _ _ Hx).
         -- apply Hb. apply Hrest. exact Hx.
@@ -232,22 +244,21 @@ Proof.
            pose proof (lpushes_complete fs (snd it) _ i x Hi Hri) as H1.
            apply in_map_iff. exists (x, pdir x). split; [reflexivity|]. apply in_rev. rewrite rev_involutive. exact H1.
         -- destruct (Hc p x Hpp Hpx) as [H1|H1]; [left; right; exact H1 | apply MOVE; exact H1].
-      * intros x Hx. destruct (Hr x Hx) as [H1|H1]; [left; right; exact H1 | apply MOVE; exact H1].
 Qed.
 
 Lemma lsp_collect_reach : forall fs imps entry fuel res,
   lsp_collect fuel fs imps entry = Done res ->
-  forall q, In q res <-> reach1 (ledge fs imps) entry q.
+  forall q, In q res <-> reach1 (ledge fs imps) entry q /\ q <> entry.
 Proof.
   intros fs imps entry fuel res H. unfold lsp_collect in H.
   eapply lsp_loop_reach; [|exact H]. constructor.
-  - reflexivity.
+  - intro p. cbn [In]. split; [intros [H1|[]]; left; symmetry; exact H1 | intros [H1|[]]; left; symmetry; exact H1].
+  - intros [].
   - intros it Hin. apply in_rev in Hin. exact (lpushes_base _ _ _ _ Hin).
   - intros p [].
   - intros it Hin. apply in_rev in Hin. destruct (lpushes_in _ _ _ _ Hin) as [i [Hi Hr]].
     exists (fst it). split; [exists i; split; assumption | apply reach_refl].
-  - intros p q [].
-  - intros q [i [Hi Hr]]. right. apply in_map_iff. exists (q, pdir q). split; [reflexivity|].
+  - intros p q [<-|[]] [i [Hi Hr]]. right. apply in_map_iff. exists (q, pdir q). split; [reflexivity|].
     apply in_rev. rewrite rev_involutive. exact (lpushes_complete _ _ _ i q Hi Hr).
 Qed.
 
@@ -260,9 +271,9 @@ Lemma collect_agree : forall fs imps cwd ab b stem e fuel rc rl_,
   (forall p i, In i (imps p) -> option_map fst (cli_resolve fs cwd ab b i) = rip fs (pdir p) i) ->
   cli_collect fuel fs imps cwd ab b stem e = Done rc ->
   lsp_collect fuel fs imps (P (rl cwd ab b) stem e) = Done rl_ ->
-  forall q, q <> P (rl cwd ab b) stem e -> (In q (map fst rc) <-> In q rl_).
+  forall q, In q rl_ <-> In q (map fst rc) /\ q <> P (rl cwd ab b) stem e.
 Proof.
-  intros fs imps cwd ab b stem e fuel rc rl_ AG HC HL q Hq.
+  intros fs imps cwd ab b stem e fuel rc rl_ AG HC HL q.
   rewrite (cli_collect_reach _ _ _ _ _ _ _ _ _ HC q), (lsp_collect_reach _ _ _ _ _ HL q).
   assert (forall p x, wedge (cli_resolve fs cwd ab b) imps p x <-> ledge fs imps p x) as EQ.
   { intros p x. split.
@@ -270,7 +281,7 @@ Proof.
     - intros [i [Hi Hr]]. rewrite <- (AG p i Hi) in Hr. destruct (cli_resolve fs cwd ab b i) as [it|] eqn:C; [|discriminate].
       exists i, it. split; [exact Hi|]. split; [exact C|]. cbn in Hr. congruence. }
   split.
-  - intro R. apply (reach_edge_ext _ (ledge fs imps)) in R; [|intros p x; apply EQ].
+  - intros [R1 Hne]. split; [|exact Hne]. apply reach1_reach in R1. revert R1. apply reach_edge_ext. intros p x. apply EQ.
+  - intros [R Hne]. split; [|exact Hne]. apply (reach_edge_ext _ (ledge fs imps)) in R; [|intros p x; apply EQ].
     destruct (reach_cases _ _ _ R) as [->|R1]; [contradiction | exact R1].
-  - intro R1. apply reach1_reach in R1. revert R1. apply reach_edge_ext. intros p x. apply EQ.
 Qed.
